@@ -710,4 +710,15 @@ theorem dd2_new_rule_continues :
     · simp only [show (4 : ℕ) ≠ 0 + 1 by norm_num, if_false] at h7; exact n3 h7
     · exact n5 h6
 
+/-! ### the top-level functions start the loops in the states `dd1State … 0`, `dd2State … 0 0` -/
+
+theorem DDatanhee1_eq (E : Ell ℝ) (x y : ℝ) : DDatanhee1 E x y = DDatanhee1Loop E x y 400 (dd1State E.e2 x y 0) := by
+  rw [dd1State_zero]; simp only [DDatanhee1, one_real, zero_real]
+
+theorem DDatanhee2_eq (E : Ell ℝ) (x y : ℝ) :
+    DDatanhee2 E x y = DDatanhee2Loop E (1 - x) (1 - y) 400 (dd2State E.e2 E.e2m (1 - x) (1 - y) 0 0) := by
+  have h : dd2State E.e2 E.e2m (1 - x) (1 - y) 0 0 = ⟨1, 1, 1, E.e2 / E.e2m ^ 2, E.e2 / E.e2m ^ 2, 0⟩ := by
+    simp [dd2State, hsym, dd2ee, dd2Sum]
+  rw [h]; simp only [DDatanhee2, one_real, sq_real]
+
 end GeoVerif.Proofs.ConicSeries
